@@ -996,7 +996,35 @@ func c08_7(c *core.Ctx, p *core.Prog) {
 				key = fmt.Sprintf("%s#%d", base, seen[base])
 			}
 			pos := p.Pos(cl.Pos())
-			kind := progressKind(fn, cl)
+			kind := progressKind(fn, cl, nil)
+			if kind == "" && fn.Object() != nil && !fn.Object().Exported() && fn.Parent() == nil {
+				// the request may sit in a small helper (`t.requestReset()`, `t.upgradeIndexType(…)`): what accompanies it
+				// is then judged at every call site of the helper — the guard in the caller, the state change in
+				// either of the two
+				inHelper := func(pred func(ssa.Instruction) bool) bool { return core.MustPassBetween(fn, nil, cl, pred) }
+				sites, all, first := 0, true, ""
+				for _, g := range rootFuncs(c, p) {
+					if core.FnPkgPath(g) != core.FnPkgPath(fn) {
+						continue
+					}
+					core.EachInstr(g, func(j ssa.Instruction) {
+						cs, ok := j.(*ssa.Call)
+						if !ok || cs.Call.StaticCallee() != fn {
+							return
+						}
+						sites++
+						k := progressKind(g, cs, inHelper)
+						if k == "" {
+							all = false
+						} else if first == "" {
+							first = k
+						}
+					})
+				}
+				if sites > 0 && all {
+					kind = first + " — judged at the " + fmt.Sprint(sites) + " call site(s) of " + fn.Name()
+				}
+			}
 			c.Check(kind != "", key, pos, core.FuncName(fn), "schema update requested together with: "+kind,
 				"a schema update is requested on a path that changes nothing the rebuild depends on (no optional mark removed, no index width advanced, dictionary not disabled, no metadata change, no one-shot latch): the rebuild loop re-runs the same deterministic code, requests the same update again and ends in the 'Too many consecutive schema updates' panic")
 		})
@@ -1039,9 +1067,9 @@ func returnsOnlyWhenClear(h *ssa.Function, k int64, latch *types.Var) bool {
 }
 
 // progressKind classifies the state change that accompanies the request.
-func progressKind(fn *ssa.Function, inc *ssa.Call) string {
+func progressKind(fn *ssa.Function, inc *ssa.Call, also func(pred func(ssa.Instruction) bool) bool) string {
 	must := func(pred func(ssa.Instruction) bool) bool {
-		return core.MustPassBetween(fn, nil, inc, pred)
+		return core.MustPassBetween(fn, nil, inc, pred) || (also != nil && also(pred))
 	}
 	// (a) RemoveOptional on the path
 	if must(func(i ssa.Instruction) bool {
